@@ -183,6 +183,8 @@ func (t *trTranslator) leanType(from *trUnit, ty types.Type, pos token.Pos) stri
 			return "Bool"
 		case x.Kind() == types.String || x.Kind() == types.UntypedString:
 			return "String"
+		case trIsFloatKind(x):
+			return "Rat" // float64 under the assumption "exact arithmetic" (trans_units_perf.go, GoSem/Float.lean)
 		}
 		trFail(pos, "type %s is outside the subset", x)
 	case *types.Named:
@@ -246,6 +248,9 @@ func (t *trTranslator) leanType(from *trUnit, ty types.Type, pos token.Pos) stri
 		}
 		return "(AMap " + t.leanType(from, x.Key(), pos) + " " + t.leanType(from, x.Elem(), pos) + ")"
 	case *types.Pointer:
+		if r, ok := t.perfPointerType(from, x, pos); ok {
+			return r // Option T for the types of trNilPtr, the map for a pointer to a map (trans_units_perf.go)
+		}
 		// a pointer to a struct is handled as the struct VALUE; the translator rejects the uses in which the two differ
 		// (comparison of pointers, assignment through a pointer that is not the receiver, nil)
 		if n, ok := trUnalias(x.Elem()).(*types.Named); ok && n.Obj().Pkg() != nil {
@@ -464,6 +469,9 @@ func (t *trTranslator) needType(u *trUnit, n *types.Named, pos token.Pos) {
 			}()
 			if ft != "" && trNilable[obj.Pkg().Path()+"."+obj.Name()+"."+f.Name()] {
 				ft = "(Option " + ft + ")" // none = nil: the code observes the nil-ness of this slice (trans_units_jprinter.go)
+			}
+			if ft != "" && trNilMap[obj.Pkg().Path()+"."+obj.Name()+"."+f.Name()] {
+				ft = "(Option " + ft + ")" // none = nil: the code observes the nil-ness of this map (trans_units_perf.go)
 			}
 			if ft == "" {
 				if t.omitted[obj] == nil {
